@@ -2,13 +2,14 @@
 // starts an HTTP server).
 //   xform <batch-file> <outdir>
 // batch:  DOC <name> <backend:c|pml|vhdl> <nbytes>\n<nbytes of SCXML>\n ...
-// writes <outdir>/<name>.<c|pml|vhdl>; prints "OK <name>" / "FAIL <name> <why>" per document.
+// writes <outdir>/<name>.<c|pml|vhdl> (and, with VERIF_ANNOT set, <name>.<backend>.annot: the annotated document); prints "OK <name>" / "FAIL <name> <why>" per document.
 // Every document is transformed in a forked child: a crash is an outcome.
 #include "uscxml/Interpreter.h"
 #include "uscxml/transform/ChartToC.h"
 #include "uscxml/transform/ChartToPromela.h"
 #include "uscxml/transform/ChartToVHDL.h"
 #include "uscxml/plugins/Factory.h"
+#include "uscxml/util/DOM.h"
 #include <fstream>
 #include <iostream>
 #include <sstream>
@@ -30,6 +31,12 @@ static int doOne(const std::string& name, const std::string& backend, const std:
 		std::ofstream out((outdir + "/" + name + "." + backend).c_str());
 		t.writeTo(out);
 		out.close();
+		if (getenv("VERIF_ANNOT")) {
+			// the document as annotated by the transformation (uscxml-transform -a)
+			std::ofstream ann((outdir + "/" + name + "." + backend + ".annot").c_str());
+			ann << (*t.getImpl()->getDocument());
+			ann.close();
+		}
 		return 0;
 	} catch (Event e) {
 		std::cerr << "Event " << e.name << std::endl;
